@@ -4,6 +4,7 @@ import (
 	"fmt"
 	"math"
 	"sort"
+	"strconv"
 
 	clip "github.com/bolom009/go-clipper2"
 	"vsimrt"
@@ -140,7 +141,19 @@ type Violation struct {
 	Observed string `json:"observed,omitempty"`
 }
 
+// keptPath is a result path the caller still holds (an alias) with the
+// digest it had when it was returned.
+type keptPath struct {
+	p64  clip.Path64
+	pd   clip.PathD
+	dig  uint64
+	op   int
+	kind string
+	obj  *Obj
+}
+
 type Ctx struct {
+	kept     []keptPath
 	task     int
 	pool     []*Input
 	private  bool
@@ -155,6 +168,8 @@ type Ctx struct {
 	peers    []*Obj // objects of this task usable for re-entrant calls
 	quiet    bool   // reference execution: no stats, no judging
 	noFmt    bool   // race runs: keep fmt (and its real sync.Pool) out of the tasks
+	reuse    map[int]*Input // C17 reused-buffers variant: one caller-side buffer per input
+	warm     bool           // ... being filled with other content of the same shape
 	lastPriv struct {
 		p64 clip.Paths64
 		pd  clip.PathsD
@@ -203,7 +218,23 @@ func (c *Ctx) in64(op *Op, k int) clip.Paths64 {
 		return nil
 	}
 	var p clip.Paths64
-	if c.private {
+	if c.reuse != nil {
+		// the caller keeps ONE buffer per input and refills it before every call
+		in := c.reuse[ref]
+		if in == nil {
+			in = &Input{p64: privCopy64(c.pool[ref].p64)}
+			c.reuse[ref] = in
+		}
+		for i, src := range c.pool[ref].p64 {
+			for j, pt := range src {
+				if c.warm {
+					pt = clip.Point64{X: pt.X + 37, Y: pt.Y - 11}
+				}
+				in.p64[i][j] = pt
+			}
+		}
+		p = in.p64
+	} else if c.private {
 		p = privCopy64(c.pool[ref].p64)
 		c.lastPriv.p64 = p
 	} else {
@@ -219,7 +250,22 @@ func (c *Ctx) inD(op *Op, k int) clip.PathsD {
 		return nil
 	}
 	var p clip.PathsD
-	if c.private {
+	if c.reuse != nil {
+		in := c.reuse[ref]
+		if in == nil {
+			in = &Input{isD: true, pd: privCopyD(c.pool[ref].pd)}
+			c.reuse[ref] = in
+		}
+		for i, src := range c.pool[ref].pd {
+			for j, pt := range src {
+				if c.warm {
+					pt = clip.PointD{X: pt.X + 3.7, Y: pt.Y - 1.1}
+				}
+				in.pd[i][j] = pt
+			}
+		}
+		p = in.pd
+	} else if c.private {
 		p = privCopyD(c.pool[ref].pd)
 		c.lastPriv.pd = p
 	} else {
@@ -645,8 +691,76 @@ func scribbleD(p clip.PathsD) {
 	}
 }
 
+// dropKept forgets the kept results of an object (its solution variable is
+// handed back to the library, or the harness itself is about to overwrite it);
+// nil forgets everything.
+func (c *Ctx) dropKept(o *Obj) {
+	if o == nil {
+		c.kept = c.kept[:0]
+		return
+	}
+	n := 0
+	for _, k := range c.kept {
+		if k.obj != o {
+			c.kept[n] = k
+			n++
+		}
+	}
+	c.kept = c.kept[:n]
+}
+
+// keep records the result paths of an operation for the result-stability
+// monitor: memory the library handed to the caller must not change later.
+func (c *Ctx) keep(op *Op, d *opDef, ob *Obj, out *Outcome) {
+	if c.quiet || out.Panic != "" || out.Diverged {
+		return
+	}
+	if c.private && (ob == nil || (ob.kind != "c64" && ob.kind != "cd" && ob.kind != "co")) {
+		return // results of path functions may legitimately alias inputs the harness scribbles on
+	}
+	if len(c.kept) > 4000 {
+		return
+	}
+	for _, p := range out.k64 {
+		c.kept = append(c.kept, keptPath{p64: p, dig: digPath64(p), op: c.opIndex, kind: op.K, obj: ob})
+	}
+	for _, p := range out.kD {
+		c.kept = append(c.kept, keptPath{pd: p, dig: digPathD(p), op: c.opIndex, kind: op.K, obj: ob})
+	}
+}
+
+func (c *Ctx) verifyKept(class string) {
+	for _, k := range c.kept {
+		var d uint64
+		if k.pd != nil {
+			d = digPathD(k.pd)
+		} else {
+			d = digPath64(k.p64)
+		}
+		if d != k.dig {
+			c.viol = append(c.viol, Violation{Class: class, Task: c.task, OpIndex: k.op, OpKind: k.kind, Symptom: "earlier-result-modified",
+				Detail: "a path returned to the caller by operation " + strconv.Itoa(k.op) + " (" + k.kind + ") was modified after the call had returned"})
+			break
+		}
+	}
+	c.kept = c.kept[:0]
+}
+
 // prepareSol applies the solution-argument perturbations of an execute.
 func (c *Ctx) prepareSol(o *Obj, op *Op) {
+	fresh := false
+	for _, p := range op.P {
+		if p == "fresh-sol" || p == "junk-sol" || p == "empty-sol" {
+			fresh = true
+		}
+		if p == "alias-in" || p == "other-sol" {
+			c.dropKept(nil)
+		}
+	}
+	if !fresh {
+		// the same variable goes back to the library: it may reuse its storage
+		c.dropKept(o)
+	}
 	for _, p := range op.P {
 		switch p {
 		case "fresh-sol":
@@ -658,6 +772,12 @@ func (c *Ctx) prepareSol(o *Obj, op *Op) {
 		case "junk-sol":
 			o.sol64, o.open64 = junk64(3), junk64(2)
 			o.solD, o.openD, o.treeOpen = junkD(3), junkD(2), junkD(2)
+			o.tree64, o.treeD = clip.NewPolyTree64(), clip.NewPolyTreeD()
+			for _, p := range junk64(2) {
+				o.tree64.AddChild(p).AddChild(p)
+				o.treeD.AddChild(p)
+			}
+			o.treeD.SetScale(3)
 			c.fire("dirty-solution")
 		case "alias-in":
 			if len(o.priv64) > 0 && (o.kind == "c64" || o.kind == "co") {
@@ -670,6 +790,12 @@ func (c *Ctx) prepareSol(o *Obj, op *Op) {
 			}
 		case "other-sol":
 			for _, q := range c.objs {
+				if q != nil && q != o && q.tree64 != nil && o.kind == "c64" {
+					o.tree64 = q.tree64 // a tree that holds the nodes of another engine's execution
+				}
+				if q != nil && q != o && q.treeD != nil && o.kind == "cd" {
+					o.treeD = q.treeD
+				}
 				if q != nil && q != o {
 					if len(q.sol64) > 0 && (o.kind == "c64" || o.kind == "co") {
 						o.sol64 = q.sol64
@@ -698,6 +824,7 @@ func (c *Ctx) afterExec(o *Obj, op *Op) {
 	for _, p := range op.P {
 		switch p {
 		case "scribble-out":
+			c.dropKept(nil)
 			scribble64(o.sol64)
 			scribble64(o.open64)
 			scribbleD(o.solD)
@@ -706,6 +833,7 @@ func (c *Ctx) afterExec(o *Obj, op *Op) {
 			o.scribbledOut = true
 			c.fire("scribble-output")
 		case "scribble-in":
+			c.dropKept(nil)
 			for _, p := range o.priv64 {
 				scribble64(p)
 			}
